@@ -4,6 +4,9 @@
 cd /verif; TIER=${1:-quick}; MISS=0
 for d in seeded/*/; do
   id=$(basename $d); prop=$(python3 -c "import json;m=json.load(open('$d/meta.json'));print(m.get('check_with') or m['breaks_property'])")
+  if python3 -c "import json,sys;sys.exit(0 if json.load(open('$d/meta.json')).get('neutralised_by') else 1)"; then
+    echo "$id $prop SKIPPED (neutralised by a later fix: commit, see meta.json)"; continue
+  fi
   out=$(./seedrun_overlay.sh $id $prop $TIER 2>&1)
   rc=$(echo "$out" | grep -o "rc=[0-9]*" | tail -1)
   sigs=$(echo "$out" | grep -o "sig=[^ ]*" | sort -u | tr '\n' ' ')
